@@ -103,6 +103,37 @@ def check_C14(chk, tier, seed):
                 qs.append(f"CMD {xb(n)}")
                 want.append(("cmd", hx(mm.cmds[n]) if n in mm.cmds else "none"))
             lines.append(("Q", f"Q {did} {len(qs)} " + " ".join(qs), (want, len(ops), sum(1 for k in mm.avps) )))
+    # codes at the seams of whatever a faster table might be built from (a dense array for low codes, a bitmap, a split at 2^16
+    # or 2^24): every such code defined vendor-less and under a vendor, half by a document and half by add_avp, every key looked up
+    seam = [0, 1, 254, 255, 256, 257, 511, 512, 1023, 1024, 1025, 2047, 2048, 4095, 4096, 65535, 65536, 65537, (1 << 24) - 1, 1 << 24,
+            (1 << 31) - 1, 1 << 31, (1 << 32) - 2, (1 << 32) - 1]
+    for variant in range(2):
+        mm, ops, docdefs = MapModel(), [], []
+        for j, c in enumerate(seam):
+            for v in (None, 10415):
+                x = dict(code=c, vendor=v, name=b"K%d-%s" % (c, b"n" if v is None else b"v"), tyname=TYNAMES[(j + (v or 0)) % 14].encode(), must=[None, b"M"][j % 2], may=None)
+                if (j + variant) % 2:
+                    docdefs.append(x)
+                else:
+                    d = def_of(x)
+                    ops.append(add_toks(d))
+                    mm.add(d)
+        apps = [dict(name=b"Seams", id=4, cmds=[], avps=docdefs)]
+        ops = ([load_toks(gen_xml(apps), apps)] + ops) if variant == 0 else (ops + [load_toks(gen_xml(apps), apps)])
+        mm.load(apps)
+        did = f"seam{variant}"
+        lines.append(("D", dict_line(did, ops), None))
+        qs, want = [], []
+        for c in seam + [1022, 1026, 65534, 258]:
+            for v in (None, 10415, 1):
+                qs.append(f"AVP {hx(c)} {opt(v)}")
+                d = mm.avps.get((c, v))
+                want.append(("avp", fmt_def(d) if d else "none"))
+        for c in seam:
+            for n in (b"K%d-n" % c, b"K%d-v" % c):
+                qs.append(f"NAME {xb(n)}")
+                want.append(("name", sorted(fmt_def(d) for d in mm.avps.values() if d["name"] == n)))
+        lines.append(("Q", f"Q {did} {len(qs)} " + " ".join(qs), (want, len(ops), len(mm.avps))))
     # the same dictionary OBJECT extended in place, step by step, looked up after every step; documents loaded again
     # after some of their definitions were overridden (latest wins: the reload restores them); a clone taken in the
     # middle, after which the two copies are extended and looked up independently
@@ -623,6 +654,27 @@ def check_C16(chk, tier, seed):
         dicts[did] = list(mm.avps.values())
     for did in ("g", "x"):
         dicts[did] = eng.dicts[did].live()
+    # operator documents in the layout of the shipped 3GPP file: an application that names its vendor (<vendor id=.../>) and declares
+    # vendor-specific AVPs next to plain ones (no vendor-id attribute: vendor-less, whatever the application says about itself);
+    # and a second document, loaded later, that declares more AVPs under application names the first one registered already
+    def odef(name, code, vendor, ty, must):
+        return dict(code=code, vendor=vendor, name=name, tyname=TY_XML_NAME[ty].encode(), must=must, may=None)
+    doc1 = [dict(name=b"Base", id=0, cmds=[(b"Op-Cmd-A", 257)], avps=[odef(b"Op-Base-One", 6001, None, "u32", b"M"), odef(b"Op-Base-Two", 6002, None, "utf", None)]),
+            dict(name=b"Operator App", id=16777238, cmds=[], vendor_elem=10415,
+                 avps=[odef(b"Op-Tariff-Class", 6101, 10415, "u32", b"V,M"), odef(b"Op-Plain-Token", 6102, None, "oct", None), odef(b"Op-Plain-M", 6103, None, "u32", b"M")])]
+    doc2 = [dict(name=b"Base", id=0, cmds=[], avps=[odef(b"Op-Base-Three", 6003, None, "u64", b"M"), odef(b"Op-Base-Four", 6004, None, "id", None)]),
+            dict(name=b"Operator App", id=16777238, cmds=[], vendor_elem=10415,
+                 avps=[odef(b"Op-Later-Plain", 6104, None, "utf", b"M"), odef(b"Op-Later-Vendor", 6105, 10415, "oct", b"V")]),
+            dict(name=b"Another App", id=4, cmds=[], vendor_elem=193, avps=[odef(b"Op-Other-Plain", 6201, None, "i32", None)])]
+    for did, ops in (("op1", [load_toks(gen_xml(doc1), doc1), load_toks(gen_xml(doc2), doc2)]),
+                     ("op2", [load_toks(gen_xml(doc1), doc1), add_toks(dict(code=6999, vendor=None, name=b"Op-Added", ty="u32", m=False)), load_toks(gen_xml(doc2), doc2)]),
+                     ("op3", [add_toks(dict(code=6999, vendor=None, name=b"Op-Added", ty="u32", m=False)), load_toks(gen_xml(doc2), doc2), load_toks(gen_xml(doc1), doc1)])):
+        prelude.append(dict_line(did, ops))
+        mm = MapModel()
+        mm.load(doc1)
+        mm.load(doc2)
+        mm.add(dict(code=6999, vendor=None, name=b"Op-Added", ty="u32", m=False))
+        dicts[did] = [d for d in mm.avps.values() if did != "op1" or d["name"] != b"Op-Added"]
     eng.prelude = prelude
     cases, expect = [], []
     starts = {}
@@ -734,6 +786,24 @@ def check_C16(chk, tier, seed):
             if nm not in have:
                 cases.append(hist_line(did, ("NEW", 272, 4, 0x80, 1, 2), [("ADDAVP", 1011, None, 0, ("L", ("oct", b"x"))), ("ADDNAME", nm, ("L", SAMPLE_LEAF["u32"]))]))
                 expect.append(("unknown", hist_line(did, ("NEW", 272, 4, 0x80, 1, 2), [("ADDAVP", 1011, None, 0, ("L", ("oct", b"x")))]), 1, did))
+    # a by-name addition in the MIDDLE of a history (the message already holds AVPs, more follow): the same message as with the
+    # numbers - the AVP goes where add_avp would put it (the end), whatever its name is (Session-Id included)
+    for did in ("b", "g", "x"):
+        live = [d for d in eng.dicts[did].live() if eng.dicts[did].name_unique(d["name"]) and d["ty"] not in ("grp", "unk")]
+        fill = [d for d in live if d["ty"] in ("u32", "oct", "utf", "id")][:7]
+        special = [d for d in live if d["name"] in (b"Session-Id", b"Origin-Host", b"Origin-Realm", b"Destination-Realm", b"Auth-Application-Id", b"Result-Code", b"Proxy-State", b"Route-Record")]
+        rr = rng.fork("mid" + did)
+        pick = special + rr.shuffle([d for d in live if d not in special])[: (60 if tier == "quick" else 600)]
+        for j, d in enumerate(pick):
+            if not fill:
+                break
+            f1, f2 = fill[j % len(fill)], fill[(j + 3) % len(fill)]
+            mk = lambda x: ("ADDAVP", x["code"], x["vendor"], 0x40 if x["m"] else 0, ("L", SAMPLE_LEAF[x["ty"]]))
+            v = ("L", SAMPLE_LEAF[d["ty"]])
+            pre, post = [mk(f1)] * (1 + j % 2), [mk(f2)] * (j % 3)
+            start = ("NEW", 272, 4, 0x80, 1, 2)
+            cases.append(hist_line(did, start, pre + [("ADDNAME", d["name"], v)] + post))
+            expect.append(("inhistory", hist_line(did, start, pre + [("ADDAVP", d["code"], d["vendor"], 0x40 if d["m"] else 0, v)] + post), None, did))
     # unknown names interleaved in histories: the failed call must change nothing
     n = 600 if tier == "quick" else 30000
     for i in range(n):
@@ -803,6 +873,11 @@ def check_C16(chk, tier, seed):
                 if vbit != (a["vendor"] != "-"):
                     ok = False
                     chk.violation("V bit of the encoding does not match the presence of a vendor id", dict(case=c, impl=short(im, 2000)))
+        elif ex[0] == "inhistory":
+            if im != refs[i][0]:
+                ok = False
+                chk.violation("a history with one AVP added by name differs (AVP order, code, vendor id, flags, reported length or encoding) from the same history "
+                              "with that AVP added by the numbers the dictionary declares for the name", dict(case=c, impl=short(im, 2000), explicit=short(refs[i][0], 2000)))
         else:
             _, ref_line, pos, did = ex
             ref = refs[i][0]
